@@ -147,6 +147,7 @@ func (in *Interp) addHarnessIntrinsics(m map[string]extFn) {
 			parts = append(parts, in.outString(v))
 		}
 		in.path.outs = append(in.path.outs, strings.Join(parts, " "))
+		in.path.outVals = append(in.path.outVals, append([]Value(nil), a[1].(Slice)...))
 		return nil
 	}
 	m["verif:verifEvent"] = func(fr *frame, a []Value) Value {
